@@ -163,7 +163,7 @@ def run_group(scratch, crate, flags, harnesses, jobs, outdir):
     scale = float(os.environ.get("VERIF_TIMEOUT_SCALE", "1.5")) * max(1.0, load)
     tmo = int(max(h.timeout for h in harnesses) * scale)
     mem = max(h.mem for h in harnesses)
-    tag = "%s-%s-%d" % (crate, "_".join(flags) or "std", os.getpid())
+    tag = "%s-%s-%d-%s" % (crate, "_".join(flags) or "std", os.getpid(), names[0][-24:])
     export = os.path.join(outdir, "kani-%s.json" % tag)
     if os.path.exists(export):
         os.unlink(export)
@@ -242,11 +242,18 @@ def run_harnesses(scratch, harnesses, outdir):
     jobs_per = max(2, min(int(os.environ.get("VERIF_JOBS", "12")), NCPU - 2) // ncr)
     all_res, cmds = [], []
 
+    # one cargo-kani invocation per at most MAX_GROUP harnesses: with ~50 harnesses in a single invocation the
+    # kani driver itself ran out of memory under the address-space limit after all proofs had finished
+    # ("memory allocation of 128 bytes failed", no result file, 2.7 h of work lost)
+    max_group = int(os.environ.get("VERIF_MAX_GROUP", "12"))
+
     def do_crate(crate):
         out = []
         for flags, hs in by_crate[crate]:
-            res, wall, cmd = run_group(scratch, crate, flags, hs, min(jobs_per, max(1, len(hs))), outdir)
-            out.append((res, cmd, wall))
+            for k in range(0, len(hs), max_group):
+                part = hs[k:k + max_group]
+                res, wall, cmd = run_group(scratch, crate, flags, part, min(jobs_per, max(1, len(part))), outdir)
+                out.append((res, cmd, wall))
         return out
 
     with ThreadPoolExecutor(max_workers=ncr) as ex:
